@@ -376,6 +376,76 @@ func runC06(c *engine.Ctx) {
 		})
 		c.Check(calls["ToLower"] && calls["SplitHostPort"] && (calls["TrimSuffix"] || calls["TrimRight"]), "pkg/util/http.CanonicalHost", ch.Pos(), len(calls), nil,
 			"CanonicalHost lower-cases, strips a port and trims the trailing dot")
+		// order per path: the trailing dot is trimmed from the host *after* the port was split off ("example.com.:80"
+		// must become "example.com"), lower-casing may happen anywhere
+		n++
+		var res0 []ssa.Value
+		engine.ForEachInstr(ch, func(in ssa.Instruction) {
+			if r, ok := in.(*ssa.Return); ok && len(r.Results) > 0 {
+				res0 = append(res0, r.Results[0])
+			}
+		})
+		c.AllPaths("pkg/util/http.CanonicalHost>order", engine.PathCheck{Fn: ch, Sink: engine.IsReturn, Track: res0,
+			Event: func(in ssa.Instruction) string {
+				if call, ok := in.(ssa.CallInstruction); ok {
+					if o := engine.CalleeObj(call); o != nil && o.Name() == "SplitHostPort" {
+						return "split"
+					}
+				}
+				return ""
+			},
+			Pred: func(st *engine.PathState) string {
+				r := st.Sink.(*ssa.Return)
+				if len(r.Results) == 2 && !engine.IsNilConst(st.Resolve(r.Results[1])) {
+					return "" // error exit
+				}
+				v := st.Resolve(r.Results[0])
+				trimmed, lower, split, trimBeforeSplit := false, false, false, false
+				for i := 0; i < 12; i++ {
+					v = st.Resolve(engine.Unwrap(v))
+					cl, idx := engine.ResultOfCall(v)
+					if cl == nil {
+						break
+					}
+					o := engine.CalleeObj(cl)
+					if o == nil {
+						break
+					}
+					switch o.Name() {
+					case "ToLower":
+						lower = true
+						v = cl.Call.Args[0]
+					case "TrimSuffix", "TrimRight":
+						if d, ok := engine.ConstString(cl.Call.Args[1]); ok && d == "." {
+							trimmed = true
+							if split {
+								trimBeforeSplit = true
+							}
+						}
+						v = cl.Call.Args[0]
+					case "SplitHostPort":
+						if idx != 0 {
+							return "CanonicalHost returns the port part"
+						}
+						if !trimmed {
+							split = true
+						}
+						v = cl.Call.Args[0]
+					default:
+						i = 99
+					}
+				}
+				if !lower {
+					return "the returned host is not lower-cased on this path"
+				}
+				if !trimmed {
+					return "the trailing dot is not stripped on this path"
+				}
+				if trimBeforeSplit || (st.HasEvent("split") && split) {
+					return "the trailing dot is trimmed before the port is split off: \"host.:port\" keeps its dot and misses its route"
+				}
+				return ""
+			}}, "lower-case, split port, then trim the trailing dot")
 	}
 	h := fn(c, "pkg/util/vhost.Muxer.handle")
 	getListener := method(c, "pkg/util/vhost", "Muxer", "getListener")
@@ -385,7 +455,7 @@ func runC06(c *engine.Ctx) {
 			c.Check(lowered(engine.CallArgs(call)[1]), "pkg/util/vhost.Muxer.handle>host", call.Pos(), 1, nil, "the muxer looks listeners up by the lower-cased host")
 		}
 	}
-	c.Floor(n, 6)
+	c.Floor(n, 7)
 
 	// ---- R8 ----
 	c.Rule("R8", "an unmatched request reaches no backend: the muxer hands over only after getListener found a listener and calls failHook otherwise; CreateConnection returns an error when no route is found")
@@ -466,6 +536,10 @@ func runC06(c *engine.Ctx) {
 
 	// ---- R10 ----
 	checkPoolKey(c, "R10")
+
+	// ---- R9 release closures are queued only after the matching registration succeeded (shared with C13.R2) ----
+	c.Rule("R9", "in server/proxy a closure that un-registers a route, listener or group membership is appended to closeFuncs only on paths where the matching registration returned nil: a refused (duplicate) registration must leave the owner's entry alone")
+	c.Floor(checkCleanupAfterAcquire(c), 4)
 }
 
 // walkerPlan abstracts a route walker (getVhost / getListener): the constants and calls it is made of.
